@@ -647,7 +647,9 @@ def check_names(ctx, case, route, named, sig_extra=''):
         if ctx.model_ok:
             mo = ctx.model([[132, [1, codes(tok), [codes(n) for n in final]]]])[0]
             want = ''.join(chr(c) for c in mo[0]) if mo and mo != [-999] else None
-            if want != name:
+            if mo == [-999] and ctx.searching:
+                ctx.count('wire_132_not_in_driver_while_searching')     # the spec-side comparisons below still run
+            elif want != name:
                 ctx.disagree('route=%s;obs=corrections_name;vs=model;symptom=differs' % route + sig_extra, case, name,
                              want, 'dask name of the corrections array differs from the model', kind='tie')
         if tok and not (len(tok) == 32 and all(ch in '0123456789abcdef' for ch in tok)):
@@ -660,6 +662,32 @@ def check_names(ctx, case, route, named, sig_extra=''):
                          'computed in one graph they are one array' % (seen[name], tag))
         seen[name] = tag
         ctx.count('corrections_name_token=%s' % bool(tok))
+
+
+def run_kernels(ctx, cfg, impl, m):
+    from katdal.applycal import apply_flags_correction, apply_vis_correction, apply_weights_correction
+    corr = np.array(impl['corr'], np.complex64)
+    forms = [complex(np.nan, np.nan), complex(np.nan, 0.0), complex(0.0, np.nan), complex(np.nan, 1.0),
+             complex(1.0, np.nan)]
+    nanpos = np.argwhere(np.isnan(corr))
+    for q, ix in enumerate(nanpos):
+        corr[tuple(ix)] = forms[q % len(forms)]
+    vis = np.array([[[c_to_py(z) for z in r] for r in t] for t in cfg['vis']], np.complex64)
+    wts = np.array([[[w[0] / 2.0 ** w[1] for w in r] for r in t] for t in cfg['weights']], np.float32)
+    fls = np.array(cfg['flags'], np.uint8)
+    try:
+        got = dict(vis=apply_vis_correction(vis, corr), weights=apply_weights_correction(wts, corr),
+                   flags=apply_flags_correction(fls, corr))
+    except Exception as e:
+        ctx.disagree('route=kernels;symptom=raises;exc=%s' % type(e).__name__, cfg, repr(e)[:300], 'a result',
+                     'apply_*_correction(data, correction) raised')
+        return
+    compare(ctx, cfg, got, m, 'kernels')
+    if not np.array_equal(fls, np.array(cfg['flags'], np.uint8)):
+        ctx.disagree('route=kernels;obs=flags;symptom=input_modified', cfg, None, None,
+                     'apply_flags_correction modified its input array')
+    ctx.count('kernels_nan_forms=%d' % min(len(nanpos), len(forms)))
+    ctx.traces_validated += 1
 
 
 def features(cfg, m):
@@ -770,7 +798,10 @@ def run_direct(ctx, cfg, mo):
         if a.shape != b.shape or not np.all(eq):
             ctx.disagree('route=direct;obs=%s;symptom=chunking_or_subset_dependent' % nm, cfg, str(a.tolist())[:200],
                          str(b.tolist())[:200], 'second chunking + loaded subset differs from the full result')
-    # chunking on the baseline axis of the data: ignored for the corrections (one chunk), same result
+    # the three kernels called directly (public entry points apply_*_correction(data, correction)) on katdal's own
+    # corrections array in which "not a number" takes all forms np.isnan accepts: nan+nanj, nan+0j, 0+nanj, nan+1j,
+    # 1+nanj (through calc_correction only nan+nanj reaches them, as a product with NaN has both components NaN)
+    run_kernels(ctx, cfg, impl, m)
     for nm in ('vis', 'weights', 'flags'):
         a, b = impl['bl_' + nm], impl[nm]
         if a.shape != b.shape or not np.all(same_c(a, b) if nm == 'vis' else a == b):
@@ -779,7 +810,9 @@ def run_direct(ctx, cfg, mo):
     for key, name, dchunks, cchunks in impl['names']:
         if ctx.model_ok:
             mo = ctx.model([[132, [2] + dchunks]])[0]
-            if mo != cchunks:
+            if mo == [-999] and ctx.searching:
+                ctx.count('wire_132_not_in_driver_while_searching')
+            elif mo != cchunks:
                 ctx.disagree('route=direct;obs=corrections_chunks;vs=model;symptom=differs', cfg, cchunks, mo,
                              'chunks of the corrections array differ from the model', kind='tie')
         if cchunks[:2] != dchunks[:2] or len(cchunks[2]) != 1 or sum(cchunks[2]) != sum(dchunks[2]):
